@@ -131,7 +131,7 @@ fn eval_single(c: &Single, seed: u64, rep: &mut Report) {
         _ => "3+-shares",
     };
     rep.case(key, &format!("roundtrip-ok:v{}:{bucket}", c.sv), nontrivial);
-    if rep.wants_sample() && nontrivial && c.payload == "seeded" && c.ns == "seeded" {
+    if rep.wants_sample() && c.app == LATEST_APP && c.payload == "seeded" && c.ns == "seeded" && (c.len == FIRST_CAP_V1 + 1 || c.len == FIRST_CAP_V0 + 1) {
         rep.sample(|| json!({"case": case(), "shares": want, "shares_len": want, "first_share_head": hex::encode(&shares[0].data()[..60])}));
     }
 }
@@ -353,7 +353,33 @@ fn main() {
                 }
             }
         }
-        rep.extra("distinct_by_construction", json!(n_a + n_b));
+        // non-judged probe (outside the statement): a *user*-namespace padding share (what a
+        // data square has between blobs: sequence start, sequence length 0) after a blob
+        let mut n_p = 0u64;
+        if let Ok(env) = seq_env(LATEST_APP, seed) {
+            for i in 0..FAMILY.len() {
+                for j in (0..FAMILY.len()).map(Some).chain([None]) {
+                    let pad = raw_share(&env.blobs[i].namespace, 0x01, &[]);
+                    let mut all: Vec<&Share> = env.shares[i].iter().collect();
+                    all.push(&pad);
+                    if let Some(j) = j {
+                        all.extend(env.shares[j].iter());
+                    }
+                    let want: Vec<&Blob> = [Some(i), j].iter().flatten().map(|x| &env.blobs[*x]).collect();
+                    let class = match guard(|| Blob::reconstruct_all(all.iter().copied(), app(LATEST_APP))) {
+                        Err(_) => "panic".to_string(),
+                        Ok(Err(e)) => err_class::<()>(&Err(e)),
+                        Ok(Ok(v)) if v.len() == want.len() && v.iter().zip(&want).all(|(a, b)| a == *b) => "padding-ignored".to_string(),
+                        Ok(Ok(v)) if v.len() == want.len() + 1 && v[1].data.is_empty() => "extra-empty-blob-returned".to_string(),
+                        Ok(Ok(_)) => "other".to_string(),
+                    };
+                    rep.case_nokey(&format!("probe:user-namespace-padding:{class}"));
+                    n_p += 1;
+                }
+            }
+        }
+        rep.extra("distinct_by_construction", json!(n_a + n_b + n_p));
+        rep.extra("probe_cases", json!(n_p));
         rep.extra("part_a_cases", json!(n_a));
         rep.extra("part_b_cases", json!(n_b));
         rep.extra("part_b_nontrivial", json!(nontrivial_b.load(Ordering::Relaxed)));
@@ -365,7 +391,7 @@ fn main() {
         &ctx,
         rep,
         Spec {
-            rule: "part A: every data length 1..=L (L=4096 quick, 20000 thorough) x payload {seeded, all-zero, all-0xff} x namespace {smallest user, largest user, seeded} x {share version 0 / no signer under app V2,V3,V7; share version 1 / signer under app V3,V7} (plus a non-judged probe: version 1 under app V1,V2); distinct = the tuple; non-trivial = length adjacent to a share-count boundary (first-share capacity 478 / 458 with signer, continuation 482). part B: every sequence of 0..=K blobs (K=3 quick, 4 thorough) from the 6-blob family x every assignment of {none, tx share, PFB start+continuation, primary reserved padding, tail padding, parity share} to each of the K+1 gaps, under app V3 and V7; distinct by construction; non-trivial = >= 2 blobs and >= 1 filler",
+            rule: "part A: every data length 1..=L (L=4096 quick, 20000 thorough) x payload {seeded, all-zero, all-0xff} x namespace {smallest user, largest user, seeded} x {share version 0 / no signer under app V2,V3,V7; share version 1 / signer under app V3,V7} (plus non-judged probes: version 1 under app V1,V2; a user-namespace padding share after a blob); distinct = the tuple; non-trivial = length adjacent to a share-count boundary (first-share capacity 478 / 458 with signer, continuation 482). part B: every sequence of 0..=K blobs (K=3 quick, 4 thorough) from the 6-blob family x every assignment of {none, tx share, PFB start+continuation, primary reserved padding, tail padding, parity share} to each of the K+1 gaps, under app V3 and V7; distinct by construction; non-trivial = >= 2 blobs and >= 1 filler",
             assumptions: &[
                 "payload bytes of the 'seeded' shape come from VERIF_SEED; the property does not depend on them beyond the two fixed shapes (all-zero, all-0xff) that are enumerated as well",
                 "reserved-namespace fillers are placed in the gaps between blobs (as in a data square), not inside a blob's share run",
